@@ -21,6 +21,9 @@ pub fn run(ctx: &mut Ctx, prop: &str) {
     if prop == "C14" || prop == "C17" {
         stream_surplus_points(ctx, prop);
     }
+    if prop == "C14" || prop == "C17" || prop == "C03" {
+        stream_zero_eval_points(ctx, prop);
+    }
     if prop == "C14" || prop == "C03" || prop == "C02" {
         stream_repeated_point(ctx, prop);
     }
@@ -379,4 +382,55 @@ fn identity_shifted_relabel(ctx: &mut Ctx, prop: &str) {
         c.shifted_comm = Some(G1Affine::zero());
         c
     });
+}
+
+/// Streaming KZG, a key made for ZERO evaluation points: the verifier key derived from the stream key has a
+/// single G2 power, the MSM of `verify` truncates `[-α, 1]` to `-α·g2`, and `π = −(C − v·g)/α` — obtainable
+/// through the public prover as the quotient of a crafted polynomial — proves any value `v` (D22).  Whatever the
+/// claim, such a key must not produce a positive verification result for a false value.
+fn stream_zero_eval_points(ctx: &mut Ctx, prop: &str) {
+    use ark_bls12_381::Bls12_381;
+    use ark_poly_commit::streaming_kzg::{CommitterKey, CommitterKeyStream, VerifierKey};
+    type E = Bls12_381;
+    for i in 0..ctx.n(3, 12) {
+        let id = format!("{}/attack-stream-zero-eval-points/{}", prop, i);
+        if !ctx.selected(&id) {
+            continue;
+        }
+        let mut rng = rng_for(ctx.seed, "attack-stream-zero-eval-points", i as u64);
+        let deg = 2 + i % 6;
+        let r = guarded(|| -> (bool, bool) {
+            let ck = CommitterKey::<E>::new(deg + 2, 0, &mut rng);
+            let cks = CommitterKeyStream::from(&ck);
+            let vk = if i % 2 == 0 { VerifierKey::from(&cks) } else { VerifierKey::from(&ck) };
+            let f: Vec<Fr> = (0..=deg).map(|_| Fr::rand(&mut rng)).collect();
+            let c = ck.commit(&f);
+            let mut alpha = Fr::rand(&mut rng);
+            while alpha.is_zero() {
+                alpha = Fr::rand(&mut rng);
+            }
+            let (v, pi) = ck.open(&f, &alpha);
+            let honest = vk.verify(&c, &alpha, &v, &pi).is_ok();
+            // quotient q = −(f − v2)/α, obtained as the proof of opening h = q·(X − α) at α
+            let v2 = v + Fr::one() + Fr::from(i as u64);
+            let ai = alpha.inverse().unwrap();
+            let mut q: Vec<Fr> = f.iter().map(|x| -*x * ai).collect();
+            q[0] += v2 * ai;
+            let mut h = vec![Fr::zero(); q.len() + 1];
+            for (k, qk) in q.iter().enumerate() {
+                h[k + 1] += *qk;
+                h[k] -= *qk * alpha;
+            }
+            let (_, forged) = ck.open(&h, &alpha);
+            (honest, vk.verify(&c, &alpha, &v2, &forged).is_ok())
+        });
+        let accepted = matches!(r, Ok((_, true)));
+        if accepted {
+            ctx.rep.expect_fail(&id, "streaming_kzg/false-evaluation-accepted/key-for-zero-evaluation-points",
+                "verify accepted a FALSE evaluation under a key made for zero evaluation points (proof = quotient of a crafted polynomial, from the public prover)",
+                format!("# scheme: streaming_kzg\n# case: {}\n# seed: {}\n# CommitterKey::new({}, 0), verifier key from the {} key; claimed value = true value + {}; proof = open(q·(X-α), α).1 with q = -(f - v)/α\n# rerun: .build/cargo/debug/pcv-harness {} --seed {} --only {}\n",
+                    id, ctx.seed, deg + 2, if i % 2 == 0 { "stream" } else { "time" }, 1 + i, prop, ctx.seed, id));
+        }
+        ctx.rep.case(&format!("attack stream zero-eval-points key (from {} key): {:?}", if i % 2 == 0 { "stream" } else { "time" }, r.as_ref().map_err(|e| e.chars().take(40).collect::<String>())), Some(format!("attack-stream-zero-eval/{}", i % 2)));
+    }
 }
